@@ -1,6 +1,8 @@
 //! The part of tokio's API the expansion (and plausible refactorings of it) uses, backed by the deterministic
 //! executor rt/vexec: `spawn` enqueues a task that the explorer polls as a separate entity.
 pub use vexec::shim::{spawn, JoinError, JoinHandle};
+// tokio's own joiners are runtime-free future combinators (round-robin polling): the real ones, explored like futures' joiners
+pub use real_tokio::{join, pin, try_join};
 pub mod task {
     pub use vexec::shim::{spawn, yield_now, JoinError, JoinHandle};
 }
